@@ -23,10 +23,12 @@ type scenario struct {
 	Holds    []string `json:"holds"` // object names carrying a foreign finalizer
 	Restarts int      `json:"restarts"`
 	TakeOver bool     `json:"takeover"`
+	// Conflicts: budget of foreign writes (resourceVersion bumps) landing just before a write of a pass
+	Conflicts int `json:"conflicts"`
 }
 
 func (sc scenario) name() string {
-	return fmt.Sprintf("B1 phases=%d delegated=%03b archive=%v holds=%v restarts=%d takeover=%v", sc.N, sc.Mask, sc.Archive, sc.Holds, sc.Restarts, sc.TakeOver)
+	return fmt.Sprintf("B1 phases=%d delegated=%03b archive=%v holds=%v restarts=%d takeover=%v conflicts=%d", sc.N, sc.Mask, sc.Archive, sc.Holds, sc.Restarts, sc.TakeOver, sc.Conflicts)
 }
 
 func system(sc scenario) *world.System {
@@ -51,6 +53,7 @@ func system(sc scenario) *world.System {
 			}
 			w.Budget["user"] = 1
 			w.Budget["restart"] = sc.Restarts
+			w.Budget["conflict"] = sc.Conflicts
 			if sc.TakeOver {
 				w.Budget["takeover"] = 1
 			}
@@ -83,6 +86,7 @@ func system(sc scenario) *world.System {
 			evs = append(evs, osw.ReleaseEvents(w)...)
 			evs = append(evs, osw.GCEvent(w)...)
 			evs = append(evs, osw.CrashEvents(w)...)
+			evs = append(evs, osw.ConflictEventsAll(w)...)
 			if w.Budget["takeover"] > 0 {
 				// a third party makes ObjectSet x the controller of b (r1 stays plain owner)
 				bk := world.KeyOf("Widget", world.NS, "b")
@@ -286,17 +290,17 @@ func scenarios(quick bool) []scenario {
 	for _, arch := range []bool{false, true} {
 		for m := uint(0); m < 4; m++ {
 			out = append(out,
-				scenario{N: 2, Mask: m, Archive: arch, Holds: []string{"b"}, Restarts: 1, TakeOver: true},
-				scenario{N: 2, Mask: m, Archive: arch, Holds: []string{"a", "g"}, Restarts: 1},
+				scenario{N: 2, Mask: m, Archive: arch, Holds: []string{"b"}, Restarts: 1, TakeOver: true, Conflicts: 1},
+				scenario{N: 2, Mask: m, Archive: arch, Holds: []string{"a", "g"}, Restarts: 1, Conflicts: 1},
 			)
 		}
 		for _, m := range []uint{0, 0b010, 0b101, 0b111} {
-			out = append(out, scenario{N: 3, Mask: m, Archive: arch, Holds: []string{"c", "b"}, Restarts: 1, TakeOver: true})
+			out = append(out, scenario{N: 3, Mask: m, Archive: arch, Holds: []string{"c", "b"}, Restarts: 1, TakeOver: true, Conflicts: 1})
 		}
 		if !quick {
 			for m := uint(0); m < 8; m++ {
 				for _, h := range [][]string{{}, {"c"}, {"b", "g"}, {"a", "b", "c"}} {
-					out = append(out, scenario{N: 3, Mask: m, Archive: arch, Holds: h, Restarts: 2, TakeOver: true})
+					out = append(out, scenario{N: 3, Mask: m, Archive: arch, Holds: h, Restarts: 2, TakeOver: true, Conflicts: 2})
 				}
 			}
 		}
@@ -306,7 +310,7 @@ func scenarios(quick bool) []scenario {
 
 func run(o checks.Opts) *report.Report {
 	rep := report.New("C04", "bfs")
-	rep.Rule = "explicit-state BFS to closure from the fully rolled-out state: user deletes or archives the ObjectSet, then reconcile(ObjectSet / each ObjectSetPhase), finalizer holder releasing foreign finalizers, garbage collector, third party making another ObjectSet the controller of b, and (budgeted) an operator crash before request i of a pass for every i; monitors on every delete / finalizer removal / Archived=True write and an invariant on every state"
+	rep.Rule = "explicit-state BFS to closure from the fully rolled-out state: user deletes or archives the ObjectSet, then reconcile(ObjectSet / each ObjectSetPhase), finalizer holder releasing foreign finalizers, garbage collector, third party making another ObjectSet the controller of b, (budgeted) an operator crash before request i of a pass for every i, and (budgeted) another actor's write to the target landing just before write i of a pass for every i (delete precondition / update conflict); monitors on every delete / finalizer removal / Archived=True write and an invariant on every state"
 	scs := scenarios(o.Quick())
 	rep.Bounds["systems"] = len(scs)
 	for i, sc := range scs {
